@@ -22,6 +22,15 @@ op codes (a = argument list)           observation
  14 new_acc    slot n p_bits seed num_bits nh   [capacity, num_hashes]   (with_accuracy; num_bits/nh = the
                                        generator's recomputation of the ln-based sizing, used by the model)
  15 fpp_probe  slot bound (item h0 h1)*   [number of probes reported as contained]
+ 16 fork       src dst                 [1] / ERR     (dst := deserialize(serialize(src)), src kept)
+ 17 parse      slot bytes...           [1] / ERR / ALLOC (-997)   (slot := None; slot := deserialize(bytes) with the
+                                       bytes allocated inside deserialize() counted: a peak above 64*len + 1 MiB
+                                       is reported as ALLOC and the value dropped)
+An operation addressed to a slot that holds no filter is observed as EMPTY (-996) on both sides.
+
+gen(rng, tier, n, focus): focus None = C09 histories; "codec" = C11 twins; "malformed" = C14 mutated images;
+"foreign" = C13 images built from the generator's own picture; "extremes" = C17 valid histories at the
+configuration extremes; "size" = C18 growing streams.
 """
 import math, os, struct, sys
 sys.path.insert(0, os.path.join(os.path.dirname(os.path.abspath(__file__)), ".."))
@@ -31,12 +40,12 @@ import pyref
 FAMILY = "bloom"
 CORR = "Bloom"             # Coq module DS.Corr.Bloom
 FAMNUM = 3
-ORACLES = {"prop_ok": 0}
+ORACLES = {"prop_ok": 0, "prop_roundtrip": 1, "prop_layout": 2, "no_panic": 3, "prop_foreign": 4}   # numbers in Corr/Bloom.v [oracles]
 GEN_MODULES = [("GenBloom", ["bloom/sketch.rs", "bloom/builder.rs"],
                 ["SERIAL_VERSION", "EMPTY_FLAG_MASK", "DIRTY_BITS_VALUE", "MIN_NUM_BITS", "MIN_NUM_HASHES", "MAX_NUM_HASHES"])]
 OPNAMES = {0: "new", 1: "insert", 2: "contains", 3: "contains_and_insert", 4: "union", 5: "intersect", 6: "invert",
            7: "reset", 8: "bits_used", 9: "serialize", 10: "roundtrip", 11: "deserialize", 12: "info", 13: "is_compatible",
-           14: "new_with_accuracy", 15: "fpp_probe"}
+           14: "new_with_accuracy", 15: "fpp_probe", 16: "fork", 17: "parse"}
 NSLOTS = 6
 M64 = (1 << 64) - 1
 
@@ -61,11 +70,10 @@ class PyFilter:
         self.nh, self.seed = nh, seed
         self.bits = 0                  # big int bitset
         self.items = set()             # items whose membership is guaranteed
-        self.tainted = False           # holds an image whose count field may disagree with the array
 
     def clone(self):
         f = PyFilter(self.cap, self.nh, self.seed)
-        f.bits, f.items, f.tainted = self.bits, set(self.items), self.tainted
+        f.bits, f.items = self.bits, set(self.items)
         return f
 
     def insert(self, item):
@@ -150,13 +158,6 @@ def gen_case(rng, cid, tier, focus=None):
         s = rng.randrange(nslots)
         f = fl[s]
         r = rng.random()
-        if f.tainted:
-            # an image whose count field disagrees with its array: only observe it
-            x = rng.choice(dom)
-            ops.append(rng.choice([(2, item_args(s, x)), (8, [s]), (9, [s]), (12, [s])]))
-            if rng.random() < 0.3:
-                new(s)
-            continue
         if r < 0.34:
             x = rng.choice(dom)
             ops.append((1, item_args(s, x))); f.insert(x)
@@ -168,11 +169,11 @@ def gen_case(rng, cid, tier, focus=None):
             ops.append((2, item_args(s, x)))
         elif r < 0.68 and nslots > 1:
             o = rng.randrange(nslots)
-            if o != s and not fl[o].tainted and f.compatible(fl[o]):
+            if o != s and f.compatible(fl[o]):
                 ops.append((4, [s, o])); f.bits |= fl[o].bits; f.items |= fl[o].items
         elif r < 0.74 and nslots > 1:
             o = rng.randrange(nslots)
-            if o != s and not fl[o].tainted and f.compatible(fl[o]):
+            if o != s and f.compatible(fl[o]):
                 ops.append((5, [s, o])); f.bits &= fl[o].bits; f.items &= fl[o].items
         elif r < 0.78:
             ops.append((6, [s])); f.bits ^= (1 << f.cap) - 1; f.items = set()
@@ -193,8 +194,6 @@ def gen_case(rng, cid, tier, focus=None):
             # foreign but valid images of the generator's own picture of some slot:
             # "dirty" count (-1, as Java/C++ writers may emit), exact count, empty form
             src = fl[rng.randrange(nslots)]
-            if src.tainted:
-                continue
             k = rng.random()
             if k < 0.5:
                 img = src.image(count=M64) if src.popcount() else src.image()
@@ -207,10 +206,8 @@ def gen_case(rng, cid, tier, focus=None):
             ops.append((11, [s] + img))
             fl[s] = src.clone()
         else:
-            # damaged images: most are rejected; accepted ones with a wrong count taint the slot
+            # damaged images: all rejected
             src = fl[rng.randrange(nslots)]
-            if src.tainted:
-                continue
             k = rng.randrange(9)
             g = src.clone()
             if k == 0:
@@ -235,7 +232,7 @@ def gen_case(rng, cid, tier, focus=None):
                 ops.append((12, [s])); new(s)                                     # never hash with k = 32767
                 continue
             else:
-                # count field within range but wrong: accepted by the crate as it stands
+                # count field within range but wrong: rejected (the reader recounts the array)
                 pc = src.popcount()
                 if pc == 0:
                     continue
@@ -243,14 +240,9 @@ def gen_case(rng, cid, tier, focus=None):
                 if c == pc or c > src.cap:
                     continue
                 img = src.image(count=c)
-                g.tainted = True
-                ops.append((11, [s] + img)); fl[s] = g
-                continue
             ops.append((11, [s] + img))      # rejected: the slot keeps its filter
     for s in range(nslots):
         f = fl[s]
-        if f.tainted:
-            ops.append((9, [s])); continue
         for x in dom + unseen[:2]:
             ops.append((2, item_args(s, x)))
         ops.append((8, [s])); ops.append((12, [s])); ops.append((9, [s])); ops.append((10, [s])); ops.append((9, [s]))
@@ -324,8 +316,453 @@ def gen_fpp(rng, cid):
     return Case(cid, [NSLOTS], ops, tag="bloom-fpp")
 
 
+# ---------------------------------------------------------------------------------------------- C11: twins
+def gen_codec_case(rng, cid, tier):
+    """C11 focus: build a state, fork it through serialize/deserialize (op 16), then apply identical operations to the
+    original and to the copy (the copy's op immediately follows the original's, same arguments): the twin oracle
+    demands equal observations (queries, counts, whole re-serialized images, behaviour under inserts / unions ...)."""
+    num_bits, nh, seed = pick_config(rng, tier)
+    if num_bits > 16384:
+        num_bits = rng.choice([16384, 16321, 8192, 4097])
+    A, A2, B, A3 = 0, 1, 2, 3
+    ops = []
+    fa, fb = PyFilter(num_bits, nh, seed), PyFilter(num_bits, nh, seed)
+    ops.append((0, [A, num_bits, nh, seed]))
+    nw = (num_bits + 63) // 64
+    ops.append((0, [B, rng.randint((nw - 1) * 64 + 1, nw * 64), nh, seed]))
+    dom = [rng.choice(ITEMS + [rng.getrandbits(64) - 2**63, rng.randint(-100, 100)]) for _ in range(rng.choice([1, 3, 8, 30]))]
+    dom = list(dict.fromkeys(dom))
+    unseen = [x for x in (123456789, -987654321, 77) if x not in dom]
+
+    def ia(x):
+        h0, h1 = hashes(x, seed)
+        return [x, h0, h1]
+
+    for x in dom:
+        if rng.random() < 0.5:
+            ops.append((1, [B] + ia(x))); fb.insert(x)
+    # the state to be forked
+    shape = rng.choice(["empty", "few", "many", "inverted", "full", "union", "reset", "intersect"])
+    k = {"empty": 0, "few": rng.randint(1, 3), "many": rng.randint(4, 60)}.get(shape, rng.randint(0, 10))
+    for _ in range(k):
+        x = rng.choice(dom)
+        ops.append((rng.choice([1, 1, 3]), [A] + ia(x))); fa.insert(x)
+    if shape == "inverted":
+        ops.append((6, [A]))
+    elif shape == "full":
+        ops.append((7, [A])); ops.append((6, [A]))
+    elif shape == "union":
+        ops.append((4, [A, B]))
+    elif shape == "intersect":
+        ops.append((5, [A, B]))
+    elif shape == "reset":
+        ops.append((7, [A]))
+    ops.append((16, [A, A2]))
+    tw = [A, A2]
+
+    def both(code, rest):
+        for sl in tw:
+            ops.append((code, [sl] + rest))
+
+    def observe():
+        both(9, []); both(8, []); both(12, [])
+        for x in dom + unseen:
+            both(2, ia(x))
+        both(13, [B])
+
+    observe()
+    if rng.random() < 0.4:
+        ops.append((16, [A2, A3])); tw = [A, A2, A3]      # a copy of the copy
+    for _ in range(rng.choice([1, 4, 12]) if tier == "quick" else rng.choice([4, 12, 40])):
+        r = rng.random()
+        if r < 0.35:
+            both(1, ia(rng.choice(dom + unseen)))
+        elif r < 0.5:
+            both(3, ia(rng.choice(dom + unseen)))
+        elif r < 0.62:
+            both(4, [B])
+        elif r < 0.7:
+            both(5, [B])
+        elif r < 0.8:
+            both(6, [])
+        elif r < 0.84:
+            both(7, [])
+        elif r < 0.92:
+            both(10, [])
+        else:
+            probe = [10**6]
+            for x in (dom + unseen)[:6]:
+                probe += ia(x)
+            both(15, probe)
+        k2 = rng.random()
+        if k2 < 0.5:
+            both(9, [])
+        elif k2 < 0.8:
+            both(8, []); both(2, ia(rng.choice(dom + unseen)))
+    observe()
+    return Case(cid, [NSLOTS], ops, tag="bloom-codec")
+
+
+# ---------------------------------------------------------------------------------------------- C14: malformed images
+# Empty-form images denote an all-zero array of the announced size.  Generated word counts are either small (the
+# accepted filter is then exercised by the list-based model) or in the range that is certainly flagged as an
+# out-of-proportion allocation and small enough to be harmless for the harness (16 .. 128 MiB).
+MAX_SMALL_WORDS = 4096
+ALLOC_WORDS = (1 << 21, 1 << 24)
+
+
+def header_of(b):
+    """the generator's reading of an image's header: None when the crate must reject it before allocating,
+    else (is_empty, nh, seed, num_longs)"""
+    if len(b) < 24 or b[2] != 21 or b[1] != 1 or not 3 <= b[0] <= 4:
+        return None
+    nh = b[4] | b[5] << 8
+    nl = int.from_bytes(bytes(b[16:20]), "little")
+    if nh == 0 or nh > 32767 or nl == 0 or nl >= 1 << 31:
+        return None
+    return bool(b[3] & 4), nh, int.from_bytes(bytes(b[8:16]), "little"), nl
+
+
+def too_big(b):
+    h = header_of(b)
+    if h is None or not h[0]:
+        return False                  # rejected, or long form (accepted only when the payload is really there)
+    return not (h[3] <= MAX_SMALL_WORDS or ALLOC_WORDS[0] <= h[3] <= ALLOC_WORDS[1])
+
+
+def le(v, n):
+    return list((v & ((1 << (8 * n)) - 1)).to_bytes(n, "little"))
+
+
+def mutate(rng, img, f):
+    """one structure-aware mutation of the valid image img of the filter picture f"""
+    b = list(img)
+    if len(b) < 24:                               # (second mutation of an already truncated image)
+        return b + [rng.randrange(256) for _ in range(rng.randrange(40))]
+    long_form = len(b) >= 40
+    r = rng.random()
+    if r < 0.10:                                  # bit flip in the preamble
+        i = rng.randrange(min(len(b), 24)); b[i] ^= 1 << rng.randrange(8)
+    elif r < 0.18:                                # byte overwritten in the preamble
+        i = rng.randrange(min(len(b), 24)); b[i] = rng.choice([0, 1, 2, 3, 4, 5, 20, 21, 22, 127, 128, 255, rng.randrange(256)])
+    elif r < 0.28 and long_form:                  # bit / byte flip in the payload (count field or bit array)
+        i = rng.randrange(24, len(b))
+        if rng.random() < 0.5:
+            b[i] ^= 1 << rng.randrange(8)
+        else:
+            b[i] = rng.randrange(256)
+    elif r < 0.36:                                # num_hashes boundary values
+        b[4:6] = le(rng.choice([0, 1, 2, 32767, 32768, 65535, f.nh + 1]), 2)
+    elif r < 0.48:                                # num_longs boundary values (0, -1, 2^31-1, 2^31, neighbours)
+        b[16:20] = le(rng.choice([0, 1, -1, -2, 2**31 - 1, 2**31, 2**31 + 1, f.nw - 1, f.nw + 1, 2 * f.nw, 255, 65536]), 4)
+    elif r < 0.60 and long_form:                  # count field boundary values
+        pc = f.popcount()
+        b[24:32] = le(rng.choice([0, 1, pc - 1, pc + 1, f.cap, f.cap + 1, f.cap + 64, -1, -2, 1 << 63, 1 << 40]), 8)
+    elif r < 0.72:                                # truncation at any offset
+        b = b[:rng.randrange(len(b) + 1)]
+    elif r < 0.78:                                # extension
+        b = b + [rng.randrange(256) for _ in range(rng.choice([1, 7, 8, 9, 64]))]
+    elif r < 0.84:                                # flags / form confusion
+        k = rng.randrange(4)
+        if k == 0:
+            b[3] = rng.choice([0, 4, 255, 251, 1 << rng.randrange(8)])
+        elif k == 1:
+            b[3] ^= 4                             # long image flagged empty / short image flagged non-empty
+        elif k == 2:
+            b[0] = rng.choice([0, 2, 3, 4, 5, 255])
+        else:
+            b[3] ^= 4; b[0] = 7 - b[0] if b[0] in (3, 4) else b[0]
+    elif r < 0.90:                                # preamble fields of another family / version
+        b[rng.choice([1, 2])] = rng.choice([0, 2, 3, 7, 10, 16, 18, 20, 22])
+    elif r < 0.95:                                # valid first bytes, random rest
+        b = b[:4] + [rng.randrange(256) for _ in range(rng.choice([0, 2, 20, 28, 60]))]
+    else:                                         # random bytes
+        b = [rng.randrange(256) for _ in range(rng.randrange(80))]
+    return b
+
+
+def use_value(rng, ops, s, t, b):
+    """everything a value returned as Ok must support: queries, inserts, invert, union / intersect with its own copy,
+    re-serialization, round trip, reset.  (All of it is observed as EMPTY when the image was rejected.)"""
+    h = header_of(b)
+    seed = h[2] if h else 0
+    cheap = h is None or h[1] <= 64            # with thousands of hash functions only a single query is made
+    x = rng.choice(ITEMS + [rng.randint(-1000, 1000)])
+    h0, h1 = hashes(x, seed)
+    ops.append((8, [s])); ops.append((12, [s])); ops.append((2, [s, x, h0, h1]))
+    if cheap:
+        ops.append((rng.choice([1, 3]), [s, x, h0, h1])); ops.append((2, [s, x, h0, h1])); ops.append((8, [s]))
+    ops.append((16, [s, t]))
+    ops.append((6, [s])); ops.append((8, [s]))
+    if cheap:
+        y = rng.randint(-1000, 1000)
+        g0, g1 = hashes(y, seed)
+        ops.append((3, [s, y, g0, g1]))
+    ops.append((rng.choice([4, 5]), [s, t])); ops.append((8, [s]))
+    ops.append((9, [s])); ops.append((10, [s])); ops.append((13, [s, t]))
+    if rng.random() < 0.5:
+        ops.append((7, [s])); ops.append((8, [s])); ops.append((9, [s]))
+
+
+def base_filter(rng):
+    num_bits = rng.choice([1, 64, 65, 128, 129, 200, 256, 512, rng.randint(1, 700), 4096])
+    nh = rng.choice([1, 2, 3, 5, 7, 16])
+    seed = rng.choice(SEEDS + [rng.getrandbits(64)])
+    f = PyFilter(num_bits, nh, seed)
+    for _ in range(rng.choice([0, 1, 3, 10, 40])):
+        f.insert(rng.randint(-1000, 1000))
+    if rng.random() < 0.15:
+        f.bits ^= (1 << f.cap) - 1
+    return f
+
+
+def gen_malformed_case(rng, cid, tier):
+    """C14 focus: structure-aware mutations of valid images (and random bytes) through deserialize (op 17, with
+    allocation accounting); every accepted value is then used"""
+    f = base_filter(rng)
+    imgs = [f.image()]
+    if f.popcount():
+        imgs.append(f.image(count=M64))
+    else:
+        imgs.append(f.image(empty=False)); imgs.append(f.image(empty=False, count=M64))
+    ops = []
+    for _ in range(10 if tier == "quick" else 30):
+        img = rng.choice(imgs)
+        b = mutate(rng, img, f)
+        if rng.random() < 0.15:
+            b = mutate(rng, b, f)
+        if too_big(b):
+            continue
+        ops.append((17, [1])); ops.append((17, [0] + b))
+        use_value(rng, ops, 0, 1, b)
+    return Case(cid, [NSLOTS], ops, tag="bloom-malformed")
+
+
+def gen_truncation_case(rng, cid, tier):
+    """C14: a valid image cut at EVERY offset (and extended by one byte)"""
+    f = base_filter(rng)
+    while f.nw > 3:
+        f = base_filter(rng)
+    img = f.image(count=M64) if (f.popcount() and rng.random() < 0.3) else f.image()
+    ops = []
+    for n in range(len(img) + 1):
+        ops.append((17, [0] + img[:n])); ops.append((8, [0]))
+    ops.append((17, [0] + img + [rng.randrange(256)])); ops.append((8, [0]))
+    use_value(rng, ops, 0, 1, img)
+    return Case(cid, [NSLOTS], ops, tag="bloom-malformed-trunc")
+
+
+def gen_bigalloc_case(rng, cid, tier):
+    """C14: headers announcing a large bit array on a tiny input.  Long form: rejected before anything is allocated
+    (fix fff8c98).  Short (EMPTY-flag) form: the image legitimately denotes an empty filter of that size and the crate
+    allocates it - known finding C14-bloom-empty-alloc."""
+    ops = []
+    for _ in range(4):
+        nh = rng.choice([1, 5, 32767]); seed = rng.choice(SEEDS)
+        extra = rng.choice([0, 0, 8, 40])
+        nw = rng.choice([1 << 21, 1 << 22, 1 << 23, 1 << 24, rng.randint(1 << 21, 1 << 24), MAX_SMALL_WORDS])
+        form = rng.choice(["short", "short", "long-cut", "short-pre4"])
+        b = [3 if form == "short" else 4, 1, 21, 0 if form == "long-cut" else 4] + le(nh, 2) + [0, 0] + le(seed, 8) + le(nw, 4) + [0] * 4
+        b += [rng.randrange(256) for _ in range(extra)]
+        ops += [(17, [0] + b), (8, [0]), (12, [0])]
+    return Case(cid, [NSLOTS], ops, tag="bloom-malformed-bigalloc")
+
+
+def kf_empty_flag_alloc(case):
+    """known finding C14-bloom-empty-alloc: every out-of-proportion allocation (-997) in the case comes from a parse op
+    whose image has the EMPTY flag (bit 2 of byte 3) set: the all-zero array of an empty filter is inherent in the format"""
+    hits = [(c, a) for (c, a), o in zip(case.ops, case.obs or []) if o[:1] == [-997]]
+    return bool(hits) and all(c == 17 and len(a) >= 5 and (a[1 + 3] & 4) for c, a in hits)
+
+
+# ---------------------------------------------------------------------------------------------- C13: foreign images
+def gen_foreign_case(rng, cid, tier):
+    """C13 focus: images a Java / C++ writer can emit for the generator's own picture of a filter (short form, long form
+    with the exact count, long form with the dirty marker -1, unused fields non-zero), deserialized by the crate; the
+    accessors, queries, re-serialization and further inserts / unions are judged against the Spec state of the image"""
+    num_bits, nh, seed = pick_config(rng, tier)
+    if num_bits > 16384:
+        num_bits = rng.choice([16384, 8192, 4097])
+    f = PyFilter(num_bits, nh, seed)
+    dom = [rng.choice(ITEMS + [rng.getrandbits(64) - 2**63, rng.randint(-100, 100)]) for _ in range(rng.choice([1, 3, 8, 30]))]
+    dom = list(dict.fromkeys(dom))
+    unseen = [x for x in (123456789, -987654321, 77) if x not in dom]
+
+    def ia(x):
+        h0, h1 = hashes(x, seed)
+        return [x, h0, h1]
+
+    shape = rng.choice(["empty", "few", "many", "inverted", "full", "raw"])
+    for _ in range({"empty": 0, "few": rng.randint(1, 3), "full": 0}.get(shape, rng.randint(4, 60))):
+        f.insert(rng.choice(dom))
+    if shape == "inverted":
+        f.bits ^= (1 << f.cap) - 1
+    elif shape == "full":
+        f.bits = (1 << f.cap) - 1
+    elif shape == "raw":
+        f.bits = rng.getrandbits(f.cap)          # any bit set is a valid state of the format
+    F, N, C = 0, 1, 2
+    ops = [(0, [N, num_bits, nh, seed])]
+    for x in dom[:5]:
+        ops.append((1, [N] + ia(x)))
+    for rnd in range(rng.choice([1, 2, 3])):
+        pc = f.popcount()
+        k = rng.random()
+        if pc == 0 and k < 0.4:
+            img = f.image()                                         # short form
+        elif k < 0.7:
+            img = f.image(empty=False)                              # long form, exact count (also for the empty set)
+        else:
+            img = f.image(empty=False, count=M64)                   # long form, dirty marker
+        if rng.random() < 0.3:
+            img[6:8] = [rng.randrange(256), rng.randrange(256)]     # unused fields carry junk
+            img[20:24] = [rng.randrange(256) for _ in range(4)]
+        ops.append((rng.choice([11, 17]), [F] + img))
+        ops += [(12, [F]), (8, [F]), (9, [F])]
+        for x in dom + unseen:
+            ops.append((2, [F] + ia(x)))
+        ops.append((13, [F, N])); ops.append((16, [F, C])); ops.append((9, [C]))
+        for _ in range(rng.choice([1, 4, 10])):
+            r = rng.random()
+            if r < 0.4:
+                x = rng.choice(dom + unseen); ops.append((rng.choice([1, 3]), [F] + ia(x))); f.insert(x)
+            elif r < 0.55:
+                ops.append((4, [F, N]))
+                for x in dom[:5]:
+                    f.insert(x)
+            elif r < 0.65:
+                ops.append((4, [N, F]))
+            elif r < 0.75:
+                ops.append((5, [C, F])); ops.append((9, [C]))
+            elif r < 0.85:
+                ops.append((6, [F])); f.bits ^= (1 << f.cap) - 1
+            else:
+                ops.append((10, [F]))
+            ops.append((rng.choice([8, 9]), [F]))
+        ops += [(8, [F]), (9, [F]), (8, [N]), (9, [N])]
+    return Case(cid, [NSLOTS], ops, tag="bloom-foreign")
+
+
+# ---------------------------------------------------------------------------------------------- C17: extremes
+def gen_extremes_case(rng, cid, tier):
+    """C17 focus: VALID call sequences only (arguments in the documented ranges, compatible operands), at the
+    configuration extremes: 1 bit, word boundaries, up to 2^20 bits; 1 and 32767 hash functions; seeds 0 and 2^64-1;
+    extreme items; long random histories over every operation incl. the codec"""
+    r = rng.random()
+    if r < 0.3:
+        num_bits = rng.choice([1, 1, 2, 63, 64, 65, 127, 128, 129])
+    elif r < 0.8:
+        num_bits = rng.choice([1, 64, 100, 1000, 4096, rng.randint(1, 5000)])
+    elif r < 0.93:
+        num_bits = rng.choice([65535, 65536, 65537])
+    else:
+        num_bits = rng.choice([1 << 20, (1 << 20) - 63, (1 << 20) - 64])
+    huge = num_bits > 100000
+    nh = rng.choice([1, 1, 2, 3, 7, 16, 255, 32767]) if not huge else rng.choice([1, 2, 5])
+    slow = nh > 300
+    seed = rng.choice([0, M64, 9001, 1, rng.getrandbits(64)])
+    nslots = rng.choice([1, 2, 3])
+    budget = 4 if slow else (12 if huge else (rng.choice([20, 80, 250]) if tier == "quick" else rng.choice([80, 400, 1500])))
+    dom = [0, 1, -1, 2**63 - 1, -2**63] + [rng.getrandbits(64) - 2**63 for _ in range(rng.choice([1, 5, 40]))]
+    ops = []
+    nw = (num_bits + 63) // 64
+    for s in range(nslots):
+        nb = num_bits if s == 0 else rng.randint((nw - 1) * 64 + 1, nw * 64)
+        ops.append((0, [s, nb, nh, seed]))
+
+    def ia(x):
+        h0, h1 = hashes(x, seed)
+        return [x, h0, h1]
+
+    hashops = 0
+    for _ in range(budget):
+        s = rng.randrange(nslots)
+        r = rng.random()
+        if r < 0.45 and not (slow and hashops >= 4):
+            ops.append((rng.choice([1, 1, 2, 3]), [s] + ia(rng.choice(dom)))); hashops += 1
+        elif r < 0.55 and nslots > 1:
+            o = rng.randrange(nslots)
+            ops.append((rng.choice([4, 4, 5]), [s, o]))                    # every slot is compatible (also with itself)
+        elif r < 0.63:
+            ops.append((6, [s]))
+        elif r < 0.66:
+            ops.append((7, [s]))
+        elif r < 0.74:
+            ops.append((8, [s]))
+        elif r < 0.80 and not huge:
+            ops.append((9, [s]))
+        elif r < 0.86:
+            ops.append((10, [s]))
+        elif r < 0.90:
+            ops.append((12, [s]))
+        elif r < 0.94:
+            ops.append((13, [s, rng.randrange(nslots)]))
+        elif nslots > 1:
+            o = rng.randrange(nslots)
+            if o != s:
+                ops.append((16, [s, o]))
+    for s in range(nslots):
+        ops += [(8, [s]), (12, [s]), (6, [s]), (8, [s]), (10, [s]), (6, [s]), (8, [s])]
+        if not huge or s == 0:
+            ops.append((9, [s]))
+    return Case(cid, [NSLOTS], ops, tag="bloom-extremes")
+
+
+def gen_extremes_builder_case(rng, cid, tier):
+    """C17: the builder at its documented limits (with_size bounds of num_hashes; with_accuracy)"""
+    ops = [(0, [0, 1, 1, 0]), (12, [0]), (0, [1, 64, 32767, M64]), (12, [1]), (9, [1]), (10, [1]), (6, [1]), (8, [1])]
+    while True:
+        n = rng.choice([1, 10, 1000, 100000])
+        p = rng.choice([0.5, 0.01, 1e-6, 0.999])
+        sz = sizing(n, p)
+        if sz and sz[0] <= 1 << 22:
+            break
+    seed = rng.choice([0, M64, 9001])
+    ops.append((14, [2, n, f64bits(p), seed, sz[0], sz[1]]))
+    for x in (0, -1, 2**63 - 1):
+        h0, h1 = hashes(x, seed)
+        ops.append((3, [2, x, h0, h1])); ops.append((2, [2, x, h0, h1]))
+    ops += [(8, [2]), (6, [2]), (8, [2]), (10, [2]), (7, [2]), (8, [2])]
+    return Case(cid, [NSLOTS], ops, tag="bloom-extremes-builder")
+
+
+# ---------------------------------------------------------------------------------------------- C18: size
+def gen_size_case(rng, cid, tier):
+    """C18 focus: one filter fed a growing stream (distinct, repeated or adversarially ordered items); the image is
+    dumped after every power-of-two prefix: its size must stay 32 + 8 * ceil(num_bits / 64) (24 while empty)"""
+    num_bits = rng.choice([1, 64, 65, 1000, 4096, 5000, 65536])
+    nh = rng.choice([1, 3, 7])
+    seed = rng.choice(SEEDS)
+    top = (10 if num_bits > 5000 else 12) if tier == "quick" else (13 if num_bits > 5000 else 15)
+    kind = rng.choice(["distinct", "repeated", "descending"])
+    base = rng.randint(-10**9, 10**9)
+    ops = [(0, [0, num_bits, nh, seed]), (9, [0]), (12, [0])]
+    nxt = 1
+    for i in range(1, (1 << top) + 1):
+        x = {"distinct": base + i, "repeated": base + i % 17, "descending": base - i * 7919}[kind]
+        h0, h1 = hashes(x, seed)
+        ops.append((1, [0, x, h0, h1]))
+        if i == nxt:
+            ops.append((9, [0])); nxt *= 2
+    ops += [(8, [0]), (12, [0]), (6, [0]), (9, [0]), (7, [0]), (9, [0])]
+    return Case(cid, [NSLOTS], ops, tag="bloom-size")
+
+
 def gen(rng, tier, n=None, focus=None):
     n = n or (150 if tier == "quick" else 1500)
+    if focus == "codec":
+        return [gen_codec_case(rng, i, tier) for i in range(n)]
+    if focus == "malformed":
+        cases = []
+        for i in range(n):
+            cases.append(gen_truncation_case(rng, i, tier) if i % 10 == 9 else gen_malformed_case(rng, i, tier))
+        return cases + [gen_bigalloc_case(rng, n + i, tier) for i in range(6)]
+    if focus == "foreign":
+        return [gen_foreign_case(rng, i, tier) for i in range(n)]
+    if focus == "extremes":
+        return [gen_extremes_builder_case(rng, i, tier) if i % 12 == 11 else gen_extremes_case(rng, i, tier) for i in range(n)]
+    if focus == "size":
+        return [gen_size_case(rng, i, tier) for i in range(n)]
     cases = []
     for i in range(n):
         k = i % 25
@@ -351,9 +788,18 @@ def measure_fpp(case, obs):
 
 
 def nontrivial(case, obs):
-    """non-trivial: at least two distinct items inserted and at least one membership query or array dump"""
+    """non-trivial: at least two distinct items inserted and at least one membership query or array dump; or a fork whose
+    twins are then both operated on; or at least 3 parsed images of which one is accepted and one rejected; or a foreign
+    image that is accepted and then queried"""
     items = {a[1] for (c, a) in case.ops if c in (1, 3)}
-    return len(items) >= 2 and any(c in (2, 9) for (c, a) in case.ops)
+    if len(items) >= 2 and any(c in (2, 9) for (c, a) in case.ops):
+        return True
+    if any(c == 16 for (c, a) in case.ops) and any(c in (1, 3, 4, 6) for (c, a) in case.ops):
+        return True
+    res = [o for (c, a), o in zip(case.ops, obs or []) if c in (11, 17)]
+    if len(res) >= 3 and [1] in res and [-998] in res:
+        return True
+    return [1] in res and any(c == 2 for (c, a) in case.ops)
 
 
 if __name__ == "__main__":
